@@ -208,6 +208,17 @@ func droppedErrors(u *Universe, rels []string) []nilFieldSite {
 						continue
 					}
 				}
+				// a call that is handed an error processes that error (classifies, resolves or wraps it): what it
+				// returns is the caller's decision about the incoming error, not a new failure
+				takesErr := false
+				for _, a := range call.Call.Args {
+					if isErrorType(a.Type()) {
+						takesErr = true
+					}
+				}
+				if takesErr {
+					continue
+				}
 				errV := errResult(call)
 				if errV == nil {
 					out = append(out, nilFieldSite{u.fname(g), name, u.pos(call.Pos())})
